@@ -284,10 +284,12 @@ PROPS["C01"] = {
     "technique": "model-based property testing of the whole resolver stack against a generated signed namespace with ground truth: in-memory authorities behind the dial hook, a generated tamper script on one zone's responses, histories of client questions under a virtual clock; each reply is judged against what the signers published",
     "level_text": ("A generator draws a namespace (signed root, one or two TLDs, second- and third-level zones; NSEC / NSEC3 with salt, iterations and opt-out; split or single keys, ECDSA P-256 and Ed25519; unsigned zones, signed islands without DS, delegations whose DS matches no key; parent and child on one server; wildcards next to concrete siblings, empty non-terminals, CNAME and DNAME aliases across zones) and signs it with miekg/dns. "
                    "In-memory authorities serve RFC 4035/5155-conformant responses through the verif dial hook; sdns runs its complete default chain (edns, cache, resolver, ...) inside a synctest bubble. A tamper script edits every response of one zone (empty, corrupt / strip signatures, strip all DNSSEC, genuinely re-signed but expired / not yet valid, re-signed by a validly chained zone that is no ancestor) or one kind of response (flipped RDATA, dropped or foreign denial, flipped RCODE, stripped or swapped DS, injected foreign records, unsigned replacement, RFC 4035 5.3.4 wildcard replay with forged in-zone / parent-zone NSEC), optionally while blocking explicit DS questions; trust anchors may be absent; QNAME minimisation on or off. "
-                   "Histories of 1-5 client questions (DO, CD, AD, EDNS, wire-born / decoded, UDP / TCP, repeats served from cache, sleeps) are judged: AD never toward CD or (no DO and no AD) clients, never unless every covered element is under an unbroken signed chain, never on an opt-out-dependent denial; with no anchor, below a bogus delegation, or when every response of a zone the reply depends on is tampered, a CD=0 client gets SERVFAIL (with EDE iff it spoke EDNS, never an OPT otherwise); a non-SERVFAIL reply for a secure name has exactly the published rcode, alias records and final RRset (TTL <= published) and, for denials, only published authority records. Exploration."),
+                   "Histories of 1-5 client questions (DO, CD, AD, EDNS, wire-born / decoded, UDP / TCP, repeats served from cache, sleeps) are judged: AD never toward CD or (no DO and no AD) clients, never unless every covered element is under an unbroken signed chain (also re-checked on a namespace that changes over time: unit 'changing-world' is C08's history test, whose oracle includes the AD rule after a zone turned insecure), never on an opt-out-dependent denial; with no anchor, below a bogus delegation, or when every response of a zone the reply depends on is tampered, a CD=0 client gets SERVFAIL (with EDE iff it spoke EDNS, never an OPT otherwise); a non-SERVFAIL reply for a secure name has exactly the published rcode, alias records and final RRset (TTL <= published) and, for denials, only published authority records. Exploration."),
     "level_note": "Trusted: internal/vfworld (zone truth, honest authority, miekg/dns signing) as the reference. A reply that stops at a validated alias is judged for what it covers (sdns answers so when the target cannot be validated; a maintainer test pins it). RFC 5155 12.2: names inside opt-out spans carry no assurance without AD. Key bits are not a function of VERIF_SEED on this toolchain (crypto/ecdsa ignores custom randomness); behaviour does not depend on them. Algorithms other than 13/15, NSEC3 iteration limits and multi-anchor roots are not generated here (C14 covers the primitives).",
     "rule": ("evaluations = histories. Non-trivial = a tampered response was consumed while resolving a CD=0 question for a name under a signed chain, or a secure reply was fully checked against published data; distinct = hash(world, tamper, question shapes)."),
-    "units": {"world": {"pkg": "./server", "run": "^TestVerifC01World$", "tiers": {"quick": T(1500, 8, timeout=900), "thorough": T(40000, 12, timeout=3400)},
+    "share": ["C08"],
+    "units": {"changing-world": {"pkg": "./server", "run": "^TestVerifC08Lease$", "tiers": {"quick": T(600, 6, timeout=900), "thorough": T(15000, 8, timeout=3400)}},
+              "world": {"pkg": "./server", "run": "^TestVerifC01World$", "tiers": {"quick": T(1500, 8, timeout=900), "thorough": T(40000, 12, timeout=3400)},
                         "floors": {"C01.world": {"tamper-fired": 0.1, "tamper-consumed-on-secure-name": 0.05, "secure": 0.3, "denial": 0.2, "served-from-cache": 0.1, "alias-chain": 0.004, "wildcard": 0.008, "honest-world": 0.1, "no-anchor": 0.02}}}},
 }
 
@@ -301,4 +303,16 @@ PROPS["C07"] = {
     "rule": ("evaluations = histories. Non-trivial = at least one decorated response was consumed and a victim question was asked afterwards; distinct = hash(attacks, victim, options, step shapes)."),
     "units": {"bailiwick": {"pkg": "./server", "run": "^TestVerifC07Bailiwick$", "tiers": {"quick": T(1200, 8, timeout=900), "thorough": T(40000, 12, timeout=3400)},
                             "floors": {"C07.bailiwick": {"attacked-responses": 0.5, "victim-question-after-attack": 0.5, "victim-glueless": 0.1, "attack:wrong-question-error": 0.04, "attack:glue-lookalike": 0.02, "attack:cname-in-message": 0.04}}}},
+}
+
+PROPS["C08"] = {
+    "level": "exploration",
+    "technique": "model-based history testing on the resolver-world harness with a namespace that changes at a generated moment: superseded servers keep answering as ghosts, a virtual clock drives leases; the packets ghosts receive and every reply after the last granted lease are judged against the new namespace",
+    "level_text": ("ghost.test. (with a deeper zone) is delegated from a signed TLD with generated NS and DS TTLs (2 s ... 25 h), fully glued, glueless (a host in provider.test., optionally slow to resolve) or partially glued; its own records, its own NS set and its negative TTL are long-lived. Clients ask names in it (existing, wildcard, nonexistent, apex, deeper zone, an alias in the TLD pointing into it; CD on/off; wire-born / decoded; repeats: 'continued querying'), prefetch is on or off. "
+                   "At a generated step the parent withdraws the delegation, re-delegates it to new servers with new keys and new data, or re-delegates it unsigned; the old servers stay reachable and answer from the old namespace. Sleeps are drawn around the lease (0.1x ... 3x). "
+                   "The last moment the parent handed out the old delegation (referral or DS answer, read off the authorities' packet log) plus min(NS TTL, DS TTL when validating, 12 h) is the end of the lease. After it: no packet may reach a ghost, and every reply for data that the old namespace served from at or below the cut must be SERVFAIL or carry the new namespace's rcode and records (no old data, no signature by a superseded key), with AD only if the new namespace is secure there. Exploration."),
+    "level_note": "Trusted: the packet log for 'when was the referral observed' (an upper bound: any later grant restarts the lease), internal/vfworld for both namespaces. For CD=1 resolutions sdns retains no DS, so the NS TTL alone is taken as the grant. The shallower-delegation limit is exercised only through the deeper zone moving with its parent. DS questions at the cut are answered by the parent side and are exempt.",
+    "rule": ("evaluations = histories. Non-trivial = at least one reply was judged after the lease end and, before it, a reply was served inside the old lease or a ghost was asked; distinct = hash(zone, change, TTLs, options, step shapes)."),
+    "units": {"lease": {"pkg": "./server", "run": "^TestVerifC08Lease$", "tiers": {"quick": T(800, 8, timeout=900), "thorough": T(25000, 12, timeout=3400)},
+                        "floors": {"C08.lease": {"reply-after-lease": 0.5, "reply-within-old-lease": 0.25, "ghost-asked-within-lease": 0.1, "ttl-above-12h-ceiling": 0.05, "glueless": 0.15, "prefetch-on": 0.3, "change:withdraw": 0.1, "change:redelegate-insecure": 0.1}}}},
 }
